@@ -51,7 +51,8 @@ ENVS = [None,
         dict(sleep_p=0.3, wake_p=0.25, max_sleeps=2),
         dict(kill_p=0.04, sleep_p=0.3, wake_p=0.2, max_sleeps=2),
         dict(sleep_p=0.5, wake_p=0.08, max_sleeps=1),
-        dict(kill_p=0.5)]
+        dict(kill_p=0.5),
+        dict(sleep_p=0.6, wake_p=0.15, max_sleeps=2, hold_asleep=True)]
 
 
 def models(thorough):
